@@ -19,6 +19,11 @@ class ReaderError(Exception):
     pass
 
 
+class TableInconsistent(ReaderError):
+    """The script was read, but its tables contradict each other (an id that points at no entry, parallel
+    lists of different length): a defect of the script, not a limitation of the reader."""
+
+
 class NotInert(Exception):
     def __init__(self, msg, raw):
         super().__init__(msg)
@@ -252,7 +257,7 @@ def read_zsh_block(body, prefix, consts):
     ids = t.pop('_descr_ids', {})
     for lit_id, did in ids.items():
         if did not in descs:
-            raise ReaderError('description id %d not defined' % did)
+            raise TableInconsistent('description id %d not defined' % did)
         t['descr'][lit_id - B] = descs[did]
     return finish(t), got
 
@@ -279,7 +284,7 @@ def read_zsh(script, cmdname='cmd'):
     for k, (t, shape) in wrappers.items():
         if shape is not None:
             if shape not in shapes:
-                raise ReaderError('shape %d missing' % shape)
+                raise TableInconsistent('shape %d missing' % shape)
             merged = dict(shapes[shape])
             merged['literals'] = t['literals']
             merged['descr'] = t['descr']
@@ -372,31 +377,31 @@ def read_fish_block(body, prefix, consts):
             t['start'] = int(m.group(1)) - B
     if inputs is not None:
         if tos is None or len(tos) != len(inputs):
-            raise ReaderError('literal_transitions inputs/tos length mismatch')
+            raise TableInconsistent('literal_transitions inputs/tos length mismatch')
         for st, (a, b) in enumerate(zip(inputs, tos)):
             ia, ib = ints(a.split()), ints(b.split())
             if len(ia) != len(ib):
-                raise ReaderError('literal_transitions cell length mismatch')
+                raise TableInconsistent('literal_transitions cell length mismatch')
             if ia:
                 t['lit_tr'][st] = {x - B: y - B for x, y in zip(ia, ib)}
     sf, st_ = t.pop('_star_from', []), t.pop('_star_to', [])
     if len(sf) != len(st_):
-        raise ReaderError('star from/to mismatch')
+        raise TableInconsistent('star from/to mismatch')
     t['star_tr'] = {a - B: b - B for a, b in zip(sf, st_)}
     if dlit is not None:
         if dids is None or len(dids) != len(dlit):
-            raise ReaderError('descr ids mismatch')
+            raise TableInconsistent('descr ids mismatch')
         for lid, did in zip(dlit, dids):
             t['descr'][lid - B] = descs.get(did)
     for st in sub_ids:
         if st not in sub_tos or len(sub_tos[st]) != len(sub_ids[st]):
-            raise ReaderError('subword ids/tos mismatch')
+            raise TableInconsistent('subword ids/tos mismatch')
         t['sub_tr'][st] = {a - B: b - B for a, b in zip(sub_ids[st], sub_tos[st])}
     for (kind, lv), fr in froms.items():
         ckind = {'literal_froms': 'literal_inputs', 'command_froms': 'commands', 'subword_froms': 'subwords'}[kind]
         cs = cells.get((ckind, lv), [])
         if len(cs) != len(fr):
-            raise ReaderError('%s level %d: %d states, %d cells' % (kind, lv, len(fr), len(cs)))
+            raise TableInconsistent('%s level %d: %d states, %d cells' % (kind, lv, len(fr), len(cs)))
         key = {'literal_froms': 'comp_lit', 'command_froms': 'comp_cmd', 'subword_froms': 'comp_sub'}[kind]
         d = {}
         for s, c in zip(fr, cs):
